@@ -207,11 +207,114 @@ func findCallsDeep(f *ssa.Function, pats ...string) []deepCall {
 			}
 			if callee := ci.Common().StaticCallee(); callee != nil && callee.Blocks != nil && depth < 3 && singleCallSite[callee] == ci {
 				walk(callee, o, depth+1)
+			} else if transparentWrapper(callee, pats...) || higherOrderWrapper(ci, pats...) {
+				out = append(out, deepCall{Outer: o, Inner: ci})
 			}
 		}
 	}
 	walk(f, nil, 0)
 	return out
+}
+
+// higherOrderWrapper: the call hands a repository helper a function value
+// matching pats (a method value `x.F`, a function) and the helper's results
+// are, on every return, those of its call of that parameter
+// (`peerChange(ctx, pid, cc.raft.AddPeer)`): for the caller this is a call of F
+// with some bracketing around it.
+func higherOrderWrapper(ci ssa.CallInstruction, pats ...string) bool {
+	h := ci.Common().StaticCallee()
+	if h == nil || h.Blocks == nil || h.Pkg == nil || !isRepoPath(h.Pkg.Pkg.Path()) || ci.Common().IsInvoke() {
+		return false
+	}
+	args := ci.Common().Args
+	if len(args) != len(h.Params) {
+		return false
+	}
+	for i, a := range args {
+		var fn *ssa.Function
+		switch x := stripLocal(a).(type) {
+		case *ssa.MakeClosure:
+			fn, _ = x.Fn.(*ssa.Function)
+		case *ssa.Function:
+			fn = x
+		}
+		if fn == nil {
+			continue
+		}
+		name := strings.TrimSuffix(fn.String(), "$bound")
+		if !nameMatches(name, pats...) {
+			continue
+		}
+		// h returns what its call of parameter i returned
+		prm := h.Params[i]
+		rets := returnsOf(h)
+		if len(rets) == 0 {
+			continue
+		}
+		ok := true
+		for _, ret := range rets {
+			if len(ret.Results) == 0 {
+				ok = false
+				break
+			}
+			for _, res := range ret.Results {
+				c, _ := originCallLocal(res)
+				if c == nil || c.Common().Value != ssa.Value(prm) {
+					ok = false
+				}
+			}
+		}
+		if ok {
+			return true
+		}
+	}
+	return false
+}
+
+// transparentWrapper: h is a repository function that hands back, result
+// for result, what one call matching pats returned (`return x.F(...)` after
+// some preparation): for a caller its call *is* that call.
+func transparentWrapper(h *ssa.Function, pats ...string) bool {
+	if h == nil || h.Blocks == nil || h.Pkg == nil || !isRepoPath(h.Pkg.Pkg.Path()) {
+		return false
+	}
+	rets := returnsOf(h)
+	if len(rets) == 0 {
+		return false
+	}
+	for _, ret := range rets {
+		if len(ret.Results) == 0 {
+			return false
+		}
+		var src *ssa.Call
+		for i, res := range ret.Results {
+			var c *ssa.Call
+			switch x := res.(type) {
+			case *ssa.Extract:
+				if cc, ok := x.Tuple.(*ssa.Call); ok && x.Index == i {
+					c = cc
+				}
+			case *ssa.Call:
+				if len(ret.Results) == 1 {
+					c = x
+				}
+			}
+			if c == nil || (src != nil && c != src) {
+				return false
+			}
+			src = c
+		}
+		if !nameMatches(callName(src.Common()), pats...) {
+			return false
+		}
+	}
+	return true
+}
+
+// callMatches: the call is one matching pats, or of a transparent wrapper
+// of one.
+func callMatches(cc *ssa.CallCommon, pats ...string) bool {
+	return nameMatches(callName(cc), pats...) || transparentWrapper(cc.StaticCallee(), pats...)
 }
 
 // instrsDeep visits the instructions of f and of the single-caller helpers
